@@ -576,11 +576,21 @@ func (s *Session) wellTyped(st *State, t types.Type, v Term) Term {
 	case *types.Signature:
 		return TTrue
 	case *types.Interface:
-		return And(Le(TZero, ITag(v)), Implies(Eq(ITag(v), TZero), Eq(IVal(v), TZero)))
+		base := And(Le(TZero, ITag(v)), Implies(Eq(ITag(v), TZero), Eq(IVal(v), TZero)))
+		if u := t.Underlying().(*types.Interface); u.NumMethods() > 0 && !isErrorType(t) {
+			// values of a non-empty interface are pointers or struct values in this code base:
+			// their payload is an allocated reference (assumption listed in evidence)
+			return And(base, Le(IVal(v), s.H(st, "$brk", SInt)))
+		}
+		return base
 	case *types.Struct, *types.Array:
 		return Lt(TZero, v)
 	}
 	return TTrue
+}
+
+func isErrorType(t types.Type) bool {
+	return types.Identical(t, types.Universe.Lookup("error").Type())
 }
 
 func (s *Session) freshTyped(st *State, hint string, t types.Type) Term {
@@ -1097,6 +1107,31 @@ func (s *Session) modOfCall(c *ssa.CallCommon, li *loopInfo, cells map[*ssa.Allo
 		}
 		return
 	}
+	if sc := c.StaticCallee(); sc != nil && sc.Pkg != nil && sc.Pkg.Pkg.Path() == "sync" && sc.Name() == "Do" && len(c.Args) == 2 {
+		li.keys["G_onceDone"] = ArrSort(SInt, SBool)
+		if mc, ok := c.Args[1].(*ssa.MakeClosure); ok {
+			cf := mc.Fn.(*ssa.Function)
+			cpkg, crel := s.P.qualName(cf)
+			if ccon := s.P.contractOf(cpkg, crel); ccon != nil {
+				if ccon.ModAll || !ccon.HasMod {
+					li.modAll = true
+				} else {
+					for _, k := range s.contractModKeys(ccon, cf, &ssa.CallCommon{Value: mc}) {
+						li.keys[k] = s.hsort[k]
+					}
+				}
+				return
+			}
+			for _, b := range cf.Blocks {
+				for _, in := range b.Instrs {
+					s.modOfInstr(in, li, map[*ssa.Alloc]bool{}, depth+1)
+				}
+			}
+		} else {
+			li.modAll = true
+		}
+		return
+	}
 	var con *Contract
 	var callee *ssa.Function
 	if c.IsInvoke() {
@@ -1169,11 +1204,10 @@ func (s *Session) callsiteGhostKeys(name string, li *loopInfo) {
 						if gp == nil {
 							gp = s.fn.Pkg.Pkg
 						}
-						t := s.P.resolveType(gp, g.Type)
-						if mt, ok := t.(*types.Map); ok {
-							li.keys[ghostKey(g.Name)] = ArrSort(sortOf(mt.Key()), sortOf(mt.Elem()))
+						if gt := s.P.parseGhostType(gp, g.Type); gt != nil {
+							li.keys[ghostKey(g.Name)] = gt.sort()
 						} else {
-							li.keys[ghostKey(g.Name)] = sortOf(t)
+							li.keys[ghostKey(g.Name)] = sortOf(s.P.resolveType(gp, g.Type))
 						}
 					}
 				}
